@@ -503,7 +503,7 @@ int main(int argc, char ** argv) {
         { "floating point", p6_count, p6_run }, { "ascii arrays", p7_count, p7_run }, { "ascii arrays longer than 32767 items", p8_count, p8_run },
     };
     int rc;
-    vh_require("int.roundtrips"); vh_require("text.roundtrips"); vh_require("text.with_double_quote"); vh_require("block.roundtrips");
+    vh_decoy_enable(7); vh_require("decoy.messages_run_on_a_second_context"); vh_require("int.roundtrips"); vh_require("text.roundtrips"); vh_require("text.with_double_quote"); vh_require("block.roundtrips");
     vh_require("block.empty"); vh_require("block.len_ge_1000"); vh_require("fp.double_roundtrips"); vh_require("fp.float_roundtrips"); vh_require("array.roundtrips");
     vh_require("int.negative64"); vh_require("array.double_items_over_the_full_range"); vh_require("fp.power_of_two_or_neighbour"); vh_require("array.long.more_than_32768_items"); vh_require("array.long.more_than_65536_items");
     rc = vh_main(argc, argv, "C07", phases, 9);
